@@ -290,7 +290,7 @@ var calls = func() []call {
 	add("WriteLength(-1)", func(w thrift.Writer) error { return w.WriteLength(-1) }, func(spec.Protocol) []byte { return nil })
 	for mt := 0; mt < 4; mt++ {
 		for _, name := range []string{"", "m"} {
-			for _, seq := range []int32{0, 1, 127, 128, math.MaxInt32} {
+			for _, seq := range []int32{0, 1, 127, 128, math.MaxInt32, -1, math.MinInt32} {
 				mt, name, seq := mt, name, seq
 				add(fmt.Sprintf("WriteMessage(%s,%q,%d)", thrift.MessageType(mt), name, seq), func(w thrift.Writer) error {
 					return w.WriteMessage(thrift.Message{Type: thrift.MessageType(mt), Name: name, SeqID: seq})
@@ -495,6 +495,10 @@ func altEncodings(c *explore.Ctx) {
 			struct {
 				name string
 				o    spec.Options
+			}{"bool-elem-false-as-2", spec.Options{BoolElemFalse2: true}},
+			struct {
+				name string
+				o    spec.Options
 			}{"long-headers+padded", spec.Options{LongFieldHeaders: true, LongListHeaders: true, PadVarints: true}},
 		)
 	}
@@ -545,7 +549,7 @@ func readers(c *explore.Ctx) {
 	case 0: // messages
 		mt := c.Choose(4)
 		name := []string{"", "m", "method_name"}[c.Choose(3)]
-		seq := []int32{0, 1, 127, 128, 16384, math.MaxInt32}[c.Choose(6)]
+		seq := []int32{0, 1, 127, 128, 16384, math.MaxInt32, -1, math.MinInt32}[c.Choose(8)]
 		b := spec.EncodeMessage(p, nil, spec.Message{Type: mt + 1, Name: name, SeqID: seq})
 		var m thrift.Message
 		var err error
